@@ -106,6 +106,11 @@ func replaceToken(s, from, to string) string {
 
 func (l *Lifter) rename(s string) string {
 	for i := len(l.renames) - 1; i >= 0; i-- {
+		if from := l.renames[i][0]; strings.HasPrefix(from, "\x00") {
+			// an expression (xs[i]) standing for the loop's element
+			s = strings.ReplaceAll(s, from[1:], l.renames[i][1])
+			continue
+		}
 		s = replaceToken(s, l.renames[i][0], l.renames[i][1])
 	}
 	return s
